@@ -109,6 +109,11 @@ try:
             corrupt("tag-1", lambda r: r["bundles"][bi]["keys"][0].update(tag=(r["bundles"][bi]["keys"][0]["tag"] - 1) % 65536))
             corrupt("domain", lambda r: r.update(domain="example"))
             corrupt("domain-acceptable-list", lambda r: r.update(domain="example"), pol_over={"acceptable_domains": [".", "example"]})
+            # membership in the list, not resemblance: parts, parents and joins of the listed names are other domains
+            for lst, dom in [(["example.org."], "org."), (["example.org."], "."), (["example.org."], "example.org"), (["example.org."], "ample.org."), (["example.", "test."], "."),
+                             (["example.", "test."], "est."), (["example.", "test."], "example., test."), (["example.", "test."], "test."), (["example.org."], "example.org."),
+                             (["example.org.", "."], "."), (["a", "b"], "ab"), (["a", "b"], "a, b"), (["."], "..")]:
+                corrupt("domain-list-membership", lambda r, dom=dom: r.update(domain=dom), pol_over={"acceptable_domains": lst})
             if n >= 2:
                 # identifier reuse: another key under the identifier of an earlier key, in a later bundle
                 def reuse(r):
